@@ -82,10 +82,12 @@ def gen_tree(rng):
             row.append(("e",))
         n = rng.range(0, 4)
         for j in range(n):
-            k = rng.weighted([(4, "S"), (2, "s"), (3, "p"), (2, "o"), (1, "u"), (1, "w")])
+            k = rng.weighted([(4, "S"), (2, "s"), (3, "p"), (2, "o"), (1, "u"), (1, "w"), (2, "e")])
             if k == "w" and j != n - 1:
                 k = "p"
-            if k == "S":
+            if k == "e":
+                row.append(("e",))          # a nested route with an empty path (`<ParentRoute path="">`): matches no segment
+            elif k == "S":
                 row.append(("S", rng.pick(sorted(DICT))))
             elif k == "s":
                 row.append(("s", rng.pick(SAME)))
